@@ -24,6 +24,16 @@ func (ve *ValEnv) userStrs(ids ...uint64) []string {
 	return out
 }
 
+// probeExecutors: every account of the current executor list must be able to act as executor
+// in its lower- and its upper-case spelling, the other users must be refused
+func probeExecutors(r *ValRun) {
+	e := r.VE.E
+	for _, u := range e.Users {
+		r.Do(TVOp{Kind: "probe", Sender: u.Str})
+		r.Do(TVOp{Kind: "probe", Sender: upperBech32(u.Str)})
+	}
+}
+
 func genC14(seed uint64, tier string, outdir string) *Report {
 	rep := NewReport("C14", seed, tier)
 	rep.Rule = "a case is one genesis, a history of blocks with one or two registered plans and the blocks around the plan heights; distinct by hash of genesis + operation list; non-trivial = at least one message or registration succeeded and at least one was rejected"
@@ -183,6 +193,35 @@ func genC14(seed uint64, tier string, outdir string) *Report {
 		st.finish(r, true, kind)
 	}
 
+	// (b4) after the plan the authorised bridge executors are exactly the plan's list - as
+	// ACCOUNTS: each of them can act as executor in the lower- and the upper-case spelling of its
+	// address whichever spelling the plan used, every other account (the former executors
+	// included) is refused.  Probed with a real FinalizeTokenDeposit on a discarded branch.
+	for variant := 0; variant < 3; variant++ {
+		st.caseID++
+		e := ve.E
+		execs := [][]string{
+			{upperBech32(e.User(2).Str), e.User(4).Str},
+			{e.User(5).Str},
+			{upperBech32(e.User(6).Str), upperBech32(e.User(1).Str), e.User(3).Str},
+		}[variant]
+		r := ve.Start(st.caseID, genesisOf(3, 2, VRec{1, 1, 1}), 3, 3)
+		r.Do(TVOp{Kind: "begin", H: 1})
+		probeExecutors(r) // users 1 and 2 are the executors of the genesis params
+		r.Do(TVOp{Kind: "register", Pid: 1, PH: 2, Op: 2, Key: 2, Execs: execs})
+		r.Do(TVOp{Kind: "end", H: 1})
+		r.Do(TVOp{Kind: "begin", H: 2})
+		r.Do(TVOp{Kind: "end", H: 2})
+		probeExecutors(r)
+		r.Do(TVOp{Kind: "begin", H: 3})
+		r.Do(TVOp{Kind: "end", H: 3})
+		kind := ""
+		if variant == 0 {
+			kind = "executor probes around a plan with an upper-case executor address"
+		}
+		st.finish(r, true, kind)
+	}
+
 	// (b2) block h executed twice by one process: first on a DISCARDED cache branch, then for
 	// real.  The plan registry is node memory, not store state; the real run must still apply
 	// the plan (fresh operator, fresh key, room below the cap: the good situation).
@@ -267,7 +306,11 @@ func genC14(seed uint64, tier string, outdir string) *Report {
 				}
 				var execs []string
 				for n := rg.Intn(4); n > 0; n-- {
-					execs = append(execs, ve.E.User(uint64(1+rg.Intn(6))).Str)
+					x := ve.E.User(uint64(1 + rg.Intn(6))).Str
+					if rg.Chance(35) {
+						x = upperBech32(x)
+					}
+					execs = append(execs, x)
 				}
 				if execs == nil {
 					execs = []string{}
@@ -284,6 +327,9 @@ func genC14(seed uint64, tier string, outdir string) *Report {
 				}
 			}
 			r.Do(TVOp{Kind: "end", H: h})
+			if h == planH && registered && rg.Chance(40) {
+				probeExecutors(r)
+			}
 		}
 		kind := ""
 		if k == 2 {
